@@ -282,6 +282,22 @@ type Conn struct {
 	wdeadline time.Time
 }
 
+// Release drops what the pipes of a finished run hold (buffered and recorded
+// bytes): goroutines the run left behind keep their connections reachable for
+// the life of the process.
+func (nw *Network) Release() {
+	nw.mu.Lock()
+	conns := append([]*Conn(nil), nw.conns...)
+	nw.mu.Unlock()
+	for _, c := range conns {
+		for _, h := range []*half{c.rd, c.wr} {
+			h.mu.Lock()
+			h.buf, h.tap, h.wmarks, h.rmarks, h.retmark = nil, nil, nil, nil, nil
+			h.mu.Unlock()
+		}
+	}
+}
+
 // Pair returns the connection pair id.
 func (c *Conn) Pair() int { return c.pair }
 
